@@ -649,8 +649,12 @@ def compare(p, mline):
         ci, cm = new_ids(pre_ids, p["jobs"]), new_ids(pre_ids, mjobs)
         if same_plan and canon_kv(p["tracked"], ci) != canon_kv(unkv(m.get("tracked", "")), cm):
             bad.append(("C07", "tracked job ids after run %r, model %r" % (p["tracked"], unkv(m.get("tracked", "")))))
+        is_local = any("deps" in sub for sub in p["subs"])
         if same_plan and canon_jobs(p["jobs"], ci) != canon_jobs(mjobs, cm):
-            bad.append(("C07", "cluster jobs/prerequisites after run %r, model %r" % (p["jobs"], mjobs)))
+            msg = "cluster jobs/prerequisites after run %r, model %r" % (p["jobs"], mjobs)
+            # C02: "its submission names as prerequisites exactly its direct dependencies that are not complete";
+            # C11 (local pool): a task whose prerequisite does not reach the pool starts without waiting for it
+            bad += [("C07", msg), ("C02", msg)] + ([("C11", msg)] if is_local else [])
         if same_plan and p["hashes"] != unkv(m.get("hashes", "")):
             bad.append(("C18", "spec hashes after run %r, model %r" % (p["hashes"], unkv(m.get("hashes", "")))))
         if not p["files_same"]:
@@ -670,7 +674,8 @@ def compare(p, mline):
         all_i = {j["id"] for j in p["jobs"]} | pre_ids
         all_m = {j["id"] for j in mjobs} | pre_ids
         if same_plan and canon_args(got_args, ci, all_i) != canon_args(exp_args, cm, all_m):
-            bad.append(("C07", "prerequisite arguments handed to the scheduler %r, model %r" % (got_args, exp_args)))
+            msg = "prerequisite arguments handed to the scheduler %r, model %r" % (got_args, exp_args)
+            bad += [("C07", msg), ("C02", msg)] + ([("C11", msg)] if is_local else [])
     elif kind == "touch":
         mfiles = unfiles(m.get("files", ""))
         if set(p["post_files"]) != set(mfiles):
